@@ -56,6 +56,8 @@ def verify(pid, n):
     ok3 = rc3 == 0
     shutil.copy(demo, f"{wt}/tests/{demo_name}.rs")
     fl = f"--features {feats}" if feats else ""
+    if (am.get("profile") or "").strip().lower() == "release":
+        fl = (fl + " --release").strip()
     rc4, out = sh(f"cargo test --offline {fl} --test {demo_name} 2>&1", wt); rec(f"demo {fl} (changed)", rc4, "\n".join(out.splitlines()[-6:]))
     demo_fails = rc4 != 0 and ("test result: FAILED" in out or "panicked" in out or "SIGABRT" in out or "signal" in out)
     sh("git checkout -- .", wt)
